@@ -12,7 +12,7 @@ from ..devsim import SimDevice
 ID = "C16"
 LEVEL = "exploration"
 SHARDS = {"quick": 8, "thorough": 16}
-RULE = ("model-based histories: optionally the unit hangs up after every answer (FIN or RST, seen by the client's event loop after or in the same pass as the answer; the transport asks eof_received() as asyncio does); operation `apply_cancelled_early`: the unit answers the state command and hangs up, the reconnect for the property write hangs and the caller gives up - the next apply() still owes the write; a capability profile (breeze in {breeze-control, legacy away only, legacy breezeless only, legacy "
+RULE = ("model-based histories: optionally the unit hangs up after every answer (FIN or RST, seen by the client's event loop after or in the same pass as the answer; the transport asks eof_received() as asyncio does); operation `apply_cancelled_early`: the unit answers the state command and hangs up, the reconnect for the property write hangs and the caller gives up - the next apply() still owes the write; operation `apply_cutack`: the unit executes the property write and its acknowledgement arrives cut short inside a record (checksum valid) - the write counts as made; a capability profile (breeze in {breeze-control, legacy away only, legacy breezeless only, legacy "
         "both, none}; rate select none/2-level/5-level; iECO, self-clean, vertical/horizontal swing angle present or not) and a "
         "list of up to 25 (quick) / 40 (thorough) operations from {set angle (every member), set rate select (members the profile "
         "supports), breeze_away/mild/breezeless := bool (only where supports_* is true), ieco := bool, start_self_clean, beep := "
@@ -328,9 +328,28 @@ def check_case(case: dict):
                 for key in ("ud", "lr", "rate", "ieco", "breeze"):
                     if key in dv:
                         cv[key] = dv[key]
-            elif k in ("apply", "apply_lossy"):
+            elif k in ("apply", "apply_lossy", "apply_cutack"):
                 mark = len(m.prop_writes)
                 nstate = len(m.control_bodies)
+                if k == "apply_cutack":
+                    # the unit executes the property write; its acknowledgement arrives cut short inside a record (checksum valid)
+                    def cutack(dev_, conn, frame, how=op[1]):
+                        try:
+                            is_prop = rc.frame_parse(frame).body[0] == 0xB0
+                        except Exception:
+                            is_prop = False
+                        if not is_prop:
+                            return None
+                        outp = m.handle(frame)
+                        if not outp:
+                            return ("frames", [], {})
+                        p_ = rc.frame_parse(outp[0])
+                        body = p_.body[:-1]
+                        cut = body[:max(3, len(body) - 1 - how)]
+                        short = rc.frame_build(p_.frame_type, cut, proto=p_.proto)
+                        m.response_hook_once = None
+                        return ("raw", dev_.wrap(conn, short))
+                    dev.on_data = cutack
                 if k == "apply_lossy":
                     # the device executes the state command but its reply gets lost (or arrives corrupted)
                     def lossy(dev_, conn, frame, how=op[1]):
@@ -449,7 +468,7 @@ def ops_strategy(max_len: int):
         st.tuples(st.just("away"), st.booleans()), st.tuples(st.just("mild"), st.booleans()), st.tuples(st.just("breezeless"), st.booleans()),
         st.tuples(st.just("ieco"), st.booleans()), st.tuples(st.just("beep"), st.booleans()), st.tuples(st.just("setting"), st.integers(0, 60)),
         st.tuples(st.just("clean")), st.tuples(st.just("apply")), st.tuples(st.just("apply")), st.tuples(st.just("refresh")),
-        st.tuples(st.just("apply_lossy"), st.integers(0, 1)),
+        st.tuples(st.just("apply_lossy"), st.integers(0, 1)), st.tuples(st.just("apply_cutack"), st.integers(0, 3)),
         st.tuples(st.just("apply_concurrent"), st.integers(0, 2), st.integers(0, 7)),
         st.tuples(st.just("apply_cancelled"), st.integers(0, 3)), st.tuples(st.just("apply_cancelled_early"), st.integers(0, 3)),
         st.tuples(st.just("remote"), st.sampled_from([0x0009, 0x000A, 0x0048, 0x0043, 0x0042, 0x0018, 0x00E3, 0x0039]), st.integers(0, 7)),
@@ -472,6 +491,7 @@ def run(ctx) -> None:
                            ["breezeless", False], ["ieco", True], ["ieco", False], ["clean"], ["beep", True]):
                 scripts.append([setter, ["apply"], ["refresh"], ["apply"], ["refresh"]])
                 scripts.append([setter, ["apply_lossy", len(scripts) % 2], ["refresh"], ["apply"], ["refresh"]])
+                scripts.append([setter, ["apply_cutack", len(scripts) % 4], ["apply"], ["refresh"], ["apply"], ["refresh"]])
                 scripts.append([setter, ["apply_concurrent", len(scripts) % 3, len(scripts) % 5], ["apply"], ["refresh"], ["apply"]])
                 scripts.append([setter, ["apply_cancelled", len(scripts) % 4], ["apply"], ["refresh"], ["apply"]])
                 scripts.append([setter, ["apply_cancelled_early", len(scripts) % 4], ["apply"], ["refresh"], ["apply"], ["refresh"]])
